@@ -20,8 +20,11 @@ def isJump (t : String) : Bool := t == "continue" || t == "break" || t == "goto"
 theorem window_wait_not_skipped :
     skel_sendPacketsForever.contains "call:g.sendQueue.addPacket" = true ∧
     ((upTo (fromTok skel_sendPacketsForever "call:g.sendQueue.addPacket") "for").any isJump) = false ∧
-    ((fromTok (fromTok skel_sendPacketsForever "call:g.sendQueue.addPacket") "for").take 5) =
-      ["for", "if", "cond:g.sendQueue.size() < g.cfg.n", "call:g.sendQueue.size", "break"] := by decide
+    (((fromTok (fromTok skel_sendPacketsForever "call:g.sendQueue.addPacket") "for").take 5) =
+        ["for", "if", "cond:g.sendQueue.size() < g.cfg.n", "call:g.sendQueue.size", "break"] ∨
+     -- the same loop written with its exit test in the header
+     ((fromTok (fromTok skel_sendPacketsForever "call:g.sendQueue.addPacket") "for").take 2) =
+        ["for", "forcond:g.sendQueue.size() >= g.cfg.n"]) := by decide
 
 /-- there is exactly one place where packets enter the queue -/
 theorem single_entry : (skel_sendPacketsForever.filter (· == "call:g.sendQueue.addPacket")).length = 1 := by decide
